@@ -11,8 +11,10 @@ Steps (every command is printed; the JIT .cpp and .S are recompiled on every inv
   4. encoding-template audit: every `constexpr uint32_t X = 0x..` of namespace ARMV8A and every commented inline
      constant of jit_compiler_a64.cpp is disassembled with llvm-objdump and compared with the mnemonic that the
      name/comment claims -> c19_templates.json (embedded into the executable as a string)
+  0. RX_REPO/src is copied to <outdir>/c19_src_snapshot; everything below is built from that one snapshot
   5. g++ (host) of jit_compiler_a64.cpp with the forward-declaration shim, the emulator, the self-test, the harness;
-     link with the host library of the same profile (bin/rxbuild.py; a private copy when RX_REPO is not /repo)
+     link with the host library (oracle) of the same profile built from the same snapshot into <outdir>/c19_private_lib
+     (bin/rxbuild.py's build_lib is reused with its directories redirected; /verif/build/lib is never touched)
   6. <outdir>/c19 --selftest ; <outdir>/c19 --bindcheck  (emulator decoder vs llvm-objdump on every distinct
      instruction word met while running sample programs) -> <outdir>/c19.bind.json
 With profile iter the sibling executable <outdir>/c19.full (2048 iterations) is built as well.
@@ -22,7 +24,7 @@ import json, os, re, shlex, subprocess, sys, shutil
 HERE = os.path.dirname(os.path.abspath(__file__))
 VERIF = os.path.abspath(os.path.join(HERE, "..", "..", ".."))
 REPO = os.environ.get("RX_REPO", "/repo")
-SRC = os.path.join(REPO, "src")
+SRC = os.path.join(REPO, "src")     # replaced by the snapshot directory in main()
 sys.path.insert(0, os.path.join(VERIF, "bin"))
 import rxbuild  # noqa: E402
 
@@ -151,9 +153,9 @@ def build(profile, outdir):
         f.write("#pragma once\nstatic const char* const C19_TEMPLATE_AUDIT = %s;\n" % json.dumps(json.dumps(brief)))
     print("template audit: %d checked, %d mismatches, %d undefined, %d without a claim" % (ta["checked"], len(ta["mismatch"]), len(ta["undefined"]), ta["no_claim"]))
     for m in ta["mismatch"] + ta["undefined"]: print("  TEMPLATE WARNING: " + m)
-    # 5. host library + executable
-    if os.path.abspath(REPO) != "/repo":
-        rxbuild.BUILD = os.path.join(outdir, "c19_private_lib")     # never touch /verif/build/lib for a foreign tree
+    # 5. host library (oracle) from the SAME snapshot, private to <outdir>, + executable
+    rxbuild.REPO = os.path.dirname(SRC); rxbuild.SRC = SRC
+    rxbuild.BUILD = os.path.join(outdir, "c19_private_lib")
     lib = rxbuild.build_lib(profile)
     print("host library: " + lib)
     exe = os.path.join(outdir, "c19" if profile != "full" or os.environ.get("C19_FULL_AS_MAIN") else "c19.full")
@@ -174,8 +176,20 @@ def build(profile, outdir):
     print("built " + exe)
     return exe
 
+def snapshot(outdir):
+    """Copy RX_REPO/src once; the oracle library, the JIT back-end and the static runtime are all built from this copy,
+    so a build is internally consistent even if the tree is edited while it runs."""
+    global SRC
+    snap = os.path.join(outdir, "c19_src_snapshot")
+    if os.path.exists(snap): shutil.rmtree(snap)
+    os.makedirs(outdir, exist_ok=True)
+    shutil.copytree(os.path.join(REPO, "src"), os.path.join(snap, "src"), ignore=shutil.ignore_patterns("tests"))
+    SRC = os.path.join(snap, "src")
+    print("snapshot of %s/src -> %s" % (REPO, SRC))
+
 if __name__ == "__main__":
     if len(sys.argv) != 3: print(__doc__); sys.exit(2)
     prof, out = sys.argv[1], os.path.abspath(sys.argv[2])
+    snapshot(out)
     build(prof, out)
     if prof == "iter": build("full", out)
